@@ -22,7 +22,7 @@ def respond (line : String) : String :=
   | ["P", entry, dn, h] =>
     (match Gen.D.ofName? dn with
      | none => "BADREQ dialect"
-     | some d => match PM.parseText entry d (unhex h) with
+     | some d => match PM.parseText2 entry d (unhex h) with
        | .ok (v, rest) => s!"OK {rest} {showVal v}"
        | .error e => e.show)
   | ["PR", pdn, sdn, h] =>
